@@ -207,7 +207,7 @@ def expr(ctx: Ctx, e, want=None) -> str:
         if isinstance(v, str):
             return '"' + v.replace("\\", "\\\\").replace('"', '\\"') + '"'
         if v is None:
-            return "none"
+            return "()" if want == "Unit" else "none"
         raise Untranslatable(f"constant {v!r}")
     if isinstance(e, ast.Name):
         t = ctx.typ(e.id)
